@@ -790,7 +790,10 @@ fn tcp_allowance(calls: &[Sys]) -> (BTreeSet<String>, Vec<String>, Vec<Sys>) {
 fn binary_scenarios(sess: &mut Session, out_abs: &Path) -> Value {
     let bin = ls_binary_path();
     let mut rep = serde_json::Map::new();
-    for mode in ["stdio", "tcp"] {
+    for mode in ["stdio", "tcp", "tcp-taken"] {
+        // `tcp-taken`: 127.0.0.1:4000 belongs to someone else (this process, or whoever made our own
+        // bind fail) when the server starts: it must not fall back to any other address
+        let _port_guard = if mode == "tcp-taken" { std::net::TcpListener::bind("127.0.0.1:4000").ok() } else { None };
         let tmp = out_abs.join(format!("c10-bin-{}", mode));
         let _ = std::fs::remove_dir_all(&tmp);
         let home = tmp.join("home");
@@ -823,6 +826,33 @@ fn binary_scenarios(sess: &mut Session, out_abs: &Path) -> Value {
         let result: Result<(), String> = if mode == "stdio" {
             let mut c = mk(Box::new(stdin), spawn_reader(stdout));
             c.session(&uri)
+        } else if mode == "tcp-taken" {
+            // the first line of stdout, or the end of the process (the pinned code panics on the
+            // failed bind), whichever comes first; the reader thread owns the pipe
+            use std::io::Read;
+            let (tx, rx) = std::sync::mpsc::channel::<String>();
+            std::thread::spawn(move || {
+                let mut line = Vec::new();
+                let mut b = [0u8; 1];
+                while let Ok(1) = stdout.read(&mut b) {
+                    line.push(b[0]);
+                    if b[0] == b'\n' {
+                        break;
+                    }
+                }
+                let _ = tx.send(String::from_utf8_lossy(&line).to_string());
+            });
+            let first = rx.recv_timeout(std::time::Duration::from_secs(20)).unwrap_or_default();
+            drop(stdin);
+            if first.contains("Listening on 127.0.0.1:4000") {
+                Err("inconclusive: port 4000 was free after all (the other owner let go of it)".to_string())
+            } else {
+                // a server that is still alive here is listening somewhere else: end it (killing
+                // strace alone would detach and leave it running)
+                let _ = std::process::Command::new("pkill").args(["-KILL", "-f"]).arg(bin.to_string_lossy().to_string()).status();
+                let _ = child.kill();
+                Ok(())
+            }
         } else {
             // wait for "Listening on …" (or the process dying: port 4000 already in use)
             use std::io::Read;
@@ -880,7 +910,18 @@ fn binary_scenarios(sess: &mut Session, out_abs: &Path) -> Value {
         }
         sess.monitor("the real harper-ls executable completed the traced session", true);
         let calls = parse_trace(&text);
-        let (mut eff, mut bad, calls) = if mode == "tcp" { tcp_allowance(&calls) } else { (BTreeSet::new(), vec![], calls) };
+        let (mut eff, mut bad, calls) = if mode != "stdio" { tcp_allowance(&calls) } else { (BTreeSet::new(), vec![], calls) };
+        if mode == "tcp-taken" {
+            // the failed bind to the loopback address is the expected (and only allowed) network call
+            let failed = eff.iter().any(|e| e.starts_with("bind-failed:"));
+            sess.monitor("tcp-taken: the bind to 127.0.0.1:4000 failed (the scenario is what it claims to be)", failed);
+            eff.retain(|e| !e.starts_with("bind-failed:"));
+            if eff.contains("listen:127.0.0.1:4000") {
+                eff.clear();
+                sess.count("binary-tcp-taken:port-was-free");
+                continue;
+            }
+        }
         let sc = Scope {
             home: tmp.to_string_lossy().to_string(),
             user: home.join("config/harper-ls/dictionary.txt").to_string_lossy().to_string(),
@@ -893,8 +934,8 @@ fn binary_scenarios(sess: &mut Session, out_abs: &Path) -> Value {
         eff.extend(t.effects.iter().cloned());
         bad.extend(t.bad.iter().cloned());
         let d = docs[0].chars().map(|c| (c as u32).to_string()).collect::<Vec<_>>().join(" ");
-        let op = format!("eff {} | upd 0 {d} | addu 1 0 {d} | addf 1 0 {d} | shutdown", mode, d = d);
-        let imp = format!("ok {}", eff.iter().cloned().collect::<Vec<_>>().join(" "));
+        let op = if mode == "tcp-taken" { "eff tcp-taken".to_string() } else { format!("eff {} | upd 0 {d} | addu 1 0 {d} | addf 1 0 {d} | shutdown", mode, d = d) };
+        let imp = format!("ok {}", eff.iter().cloned().collect::<Vec<_>>().join(" ")).trim_end().to_string();
         let case = sess.k(&op, &imp);
         sess.nontrivial(&op);
         sess.o();
